@@ -63,6 +63,16 @@ def unpresentable_payload(pseed):
         return m.SerializeToString(), "call"
 
 
+def with_key_distribution(data):
+    """the same payload with a sender key distribution piggy-backed on it (how a participant's first group message travels)"""
+    from yowsup.layers.protocol_messages.proto.e2e_pb2 import Message
+    m = Message()
+    m.ParseFromString(data)
+    m.sender_key_distribution_message.group_id = GJID
+    m.sender_key_distribution_message.axolotl_sender_key_distribution_message = b"\x33\x08\x01"
+    return m.SerializeToString()
+
+
 def payload_bytes(kind, rng=None, text=None, pseed=None):
     """protobuf payload of a message without mediatype"""
     from yowsup.layers.protocol_messages.proto.e2e_pb2 import Message
@@ -253,6 +263,8 @@ def build_stanza(d, seq=1):
                 data = payload_bytes("keyDistributionOnly") if d.get("payload") == "keyDistributionOnly" else media_payload(media)
             else:
                 data = payload_bytes(d.get("payload", "other"), pseed=d.get("pseed"))
+            if d.get("skdm") and d.get("payload") != "keyDistributionOnly":
+                data = with_key_distribution(data)
             kids.append(N("proto", pattrs, None, data))
         return N("message", attrs, kids)
     raise ValueError(tag)
